@@ -9,6 +9,10 @@ CLAIMED = {
    technique="constant/ordering folding of the precedence and comparison functions over SSA + guarded-by (path-condition reachability) on every cascaded-style write + provenance of sheet origins",
    text="Decides structural necessary conditions of the cascade order on the type-checked source (precedence table, weight/specificity comparison on all orderings, guarded insertion, style-attribute weight, sheet order/origins, media filtering). Not a proof of the behavioural statement: selector matching and in-sheet source order are not decided.",
    ref="4 C03"),
+ "C04": dict(
+   technique="table/vocabulary agreement over go/types constants and literals + type flow into interface slots (SSA) + polynomial folding of the unit conversion + guarded-by on the defaulting skeleton and on every parent-style dereference",
+   text="Decides structural necessary conditions of CSS defaulting: the six per-property tables agree with each other and with CSS 2.1 Appendix F (inherited flags, initial keywords), every value that can enter a style slot has the slot's type, the unit table holds the fixed CSS ratios, length_ multiplies each relative unit by the right font size, the inherit/initial skeleton of cascadeValue, and the root never dereferences its missing parent. Pending var() paths, caching order and font metrics are not decided.",
+   ref="4 C04"),
 }
 
 NOT_APPLICABLE = {
